@@ -2699,7 +2699,7 @@ def _suite_C03(shape_seed, secret_seed, tier):
 # ---------------------------------------------------------------------------
 # C18: concurrent cold-start scenarios.  Registers 0 and 1 of every kind are shared between the goroutines and
 # only read; registers >= 2 are private to each goroutine.
-def conc_scenario(sid, rng, G):
+def conc_scenario(sid, rng, G, first_ops=None):
     pre = Prog(0, "prelude")
     load_point(pre, "p0", any_point(rng), rng, rng.choice(["bytes", "ext-lam"]), scratch=("e0", "e1", "e2", "e3"))
     load_point(pre, "p1", (0, 1) if rng.randrange(3) == 0 else any_point(rng), rng, rng.choice(["bytes", "ext-lam"]))
@@ -2731,7 +2731,12 @@ def conc_scenario(sid, rng, G):
         load_scalar(p, "s2", scalar_val(rng), rng, "canon")
         ops = ["base", "naf", "mult", "msm", "vmsm", "add", "misc"]
         rng.shuffle(ops)
-        if first == "staggered":
+        if first_ops is not None:
+            # schedule replay: the goroutine's first table use is the one the specification's behaviour gives it
+            ops = [o for o in ops if o not in ("base", "naf")]
+            if first_ops[g] in ("base", "naf"):
+                ops = [first_ops[g], "naf" if first_ops[g] == "base" else "base"] + ops
+        elif first == "staggered":
             # arrivals at the lazily built state spread over time: goroutine g does g mod 4 pieces of other work first,
             # then alternates between the two table users
             other = [o for o in ops if o not in ("base", "naf")]
@@ -2743,7 +2748,7 @@ def conc_scenario(sid, rng, G):
         else:
             ops.remove("naf")
             ops.insert(0, "naf")
-        for op in ops[: (rng.randrange(3, 7) if first != "staggered" else 6)]:
+        for op in ops[: (3 if first_ops is not None else rng.randrange(3, 7) if first != "staggered" else 6)]:
             if op == "base":
                 p.op("Point.ScalarBaseMult", r="p2", a=[rng.choice(["s0", "s2"])])
                 p.op("Point.Bytes", r="p2", o=["b2"])
